@@ -11,3 +11,61 @@ package pipeline
 //verif:assume s.instanceNames != nil because "NewService allocates the name index"
 //verif:call[running-becomes-system-stopped] (*Instance).SetStatus requires result_of("(*Instance).GetStatus", 0) == StatusRunning && arg1 == StatusSystemStopped && since("(*Instance).SetStatus", "(*Instance).GetStatus") == 0
 //verif:call[every-instance-checked] (*Service).updateNewStatusMetrics requires since("(*Service).updateNewStatusMetrics", "(*Instance).GetStatus") == 0 && (result_of("(*Instance).GetStatus", 0) == StatusRunning ==> since("(*Instance).GetStatus", "(*Instance).SetStatus") == 0 && called("(*Instance).SetStatus"))
+
+// ---- C14: every mutating operation is all-or-nothing w.r.t. the in-memory view -------
+// (the store is told through Store.Set / Store.Delete; a failed store call must leave
+// the in-memory instance and the name index exactly as they were)
+//verif:func (*Service).Get(s, ctx, id) (inst, err)
+//verif:ensures[found] err == nil ==> has(s.instances, id) && inst == s.instances[id]
+//verif:modifies nothing
+
+//verif:def sameConns(s, id) = len(s.instances[id].ConnectorIDs) == old(len(s.instances[id].ConnectorIDs)) && forall k in [0, len(s.instances[id].ConnectorIDs)): s.instances[id].ConnectorIDs[k] == old(s.instances[id].ConnectorIDs[k])
+//verif:def sameProcs(s, id) = len(s.instances[id].ProcessorIDs) == old(len(s.instances[id].ProcessorIDs)) && forall k in [0, len(s.instances[id].ProcessorIDs)): s.instances[id].ProcessorIDs[k] == old(s.instances[id].ProcessorIDs[k])
+//verif:def sameRest(s, id) = s.instances[id].Config == old(s.instances[id].Config) && s.instances[id].DLQ == old(s.instances[id].DLQ) && s.instances[id].UpdatedAt == old(s.instances[id].UpdatedAt)
+
+//verif:func (*Service).AddConnector(s, ctx, pipelineID, connectorID) (inst, err)
+//verif:assume forall i :: has(s.instances, i) ==> base(s.instances[i].ConnectorIDs) != base(s.instances[i].ProcessorIDs) || isnil(s.instances[i].ConnectorIDs) because "the two id lists of an instance are separate allocations (built by append / JSON decoding), never sub-slices of one another"
+//verif:ensures[all-or-nothing-connectors] err != nil && has(s.instances, pipelineID) ==> sameConns(s, pipelineID)
+//verif:ensures[all-or-nothing-processors] err != nil && has(s.instances, pipelineID) ==> sameProcs(s, pipelineID)
+//verif:ensures[all-or-nothing-config] err != nil && has(s.instances, pipelineID) ==> sameRest(s, pipelineID)
+//verif:ensures[effect] err == nil ==> succeeded("(*Store).Set") && len(inst.ConnectorIDs) == old(len(s.instances[pipelineID].ConnectorIDs)) + 1
+
+//verif:func (*Service).AddProcessor(s, ctx, pipelineID, processorID) (inst, err)
+//verif:assume forall i :: has(s.instances, i) ==> base(s.instances[i].ConnectorIDs) != base(s.instances[i].ProcessorIDs) || isnil(s.instances[i].ConnectorIDs) because "the two id lists of an instance are separate allocations (built by append / JSON decoding), never sub-slices of one another"
+//verif:ensures[all-or-nothing-connectors] err != nil && has(s.instances, pipelineID) ==> sameConns(s, pipelineID)
+//verif:ensures[all-or-nothing-processors] err != nil && has(s.instances, pipelineID) ==> sameProcs(s, pipelineID)
+//verif:ensures[all-or-nothing-config] err != nil && has(s.instances, pipelineID) ==> sameRest(s, pipelineID)
+//verif:ensures[effect] err == nil ==> succeeded("(*Store).Set") && len(inst.ProcessorIDs) == old(len(s.instances[pipelineID].ProcessorIDs)) + 1
+
+//verif:func (*Service).UpdateDLQ(s, ctx, pipelineID, cfg) (inst, err)
+//verif:ensures[all-or-nothing-connectors] err != nil && has(s.instances, pipelineID) ==> sameConns(s, pipelineID)
+//verif:ensures[all-or-nothing-processors] err != nil && has(s.instances, pipelineID) ==> sameProcs(s, pipelineID)
+//verif:ensures[all-or-nothing-config] err != nil && has(s.instances, pipelineID) ==> sameRest(s, pipelineID)
+//verif:ensures[effect] err == nil ==> succeeded("(*Store).Set") && inst.DLQ == cfg
+//verif:ensures[window-valid] err == nil ==> cfg.WindowSize >= 0 && cfg.WindowNackThreshold >= 0 && (cfg.WindowSize > 0 ==> cfg.WindowNackThreshold < cfg.WindowSize)
+
+//verif:func (*Service).Create(s, ctx, id, cfg, p) (inst, err)
+//verif:call[store-before-memory] (*Service).updateNewStatusMetrics requires succeeded("(*Store).Set")
+//verif:ensures[all-or-nothing] err != nil ==> !stored("instances")
+
+//verif:func (*Service).Delete(s, ctx, pipelineID) (err)
+//verif:call[store-before-memory] (*Service).updateOldStatusMetrics requires succeeded("(*Store).Delete")
+
+//verif:func (*Service).RemoveConnector(s, ctx, pipelineID, connectorID) (inst, err)
+//verif:assume forall i :: has(s.instances, i) ==> base(s.instances[i].ConnectorIDs) != base(s.instances[i].ProcessorIDs) || isnil(s.instances[i].ConnectorIDs) because "the two id lists of an instance are separate allocations (built by append / JSON decoding), never sub-slices of one another"
+//verif:ensures[all-or-nothing-connectors] err != nil && has(s.instances, pipelineID) ==> sameConns(s, pipelineID)
+//verif:ensures[all-or-nothing-processors] err != nil && has(s.instances, pipelineID) ==> sameProcs(s, pipelineID)
+//verif:ensures[all-or-nothing-config] err != nil && has(s.instances, pipelineID) ==> sameRest(s, pipelineID)
+
+//verif:func (*Service).RemoveProcessor(s, ctx, pipelineID, processorID) (inst, err)
+//verif:assume forall i :: has(s.instances, i) ==> base(s.instances[i].ConnectorIDs) != base(s.instances[i].ProcessorIDs) || isnil(s.instances[i].ConnectorIDs) because "the two id lists of an instance are separate allocations (built by append / JSON decoding), never sub-slices of one another"
+//verif:ensures[all-or-nothing-connectors] err != nil && has(s.instances, pipelineID) ==> sameConns(s, pipelineID)
+//verif:ensures[all-or-nothing-processors] err != nil && has(s.instances, pipelineID) ==> sameProcs(s, pipelineID)
+//verif:ensures[all-or-nothing-config] err != nil && has(s.instances, pipelineID) ==> sameRest(s, pipelineID)
+
+//verif:func (*Service).Update(s, ctx, pipelineID, cfg) (inst, err)
+//verif:assume s.instanceNames != nil because "NewService allocates the name index"
+//verif:ensures[all-or-nothing-connectors] err != nil && has(s.instances, pipelineID) ==> sameConns(s, pipelineID)
+//verif:ensures[all-or-nothing-processors] err != nil && has(s.instances, pipelineID) ==> sameProcs(s, pipelineID)
+//verif:ensures[all-or-nothing-config] err != nil && has(s.instances, pipelineID) ==> sameRest(s, pipelineID)
+
